@@ -127,7 +127,87 @@ def gen_filter(rng):
     return ['poly', [wl[i] for i in order], [smp[i] for i in order], rng.choice(NAMES)]
 
 
-def gen_value(rng, prop, old=None):
+CT_KEYS = ('diffraction_order', 'grating', 'focal_length', 'pixel_spacing', 'diffraction_angle', 'accommodated_spectra')
+
+
+def ref_ct_edges(p):
+    """independent reference (plain Python floats, nothing read from the instrument): the pixel edges of a Czerny-Turner
+    spectrometer with constructor parameters `p`; None when the geometry is not on a legal branch (resolution not a
+    positive finite number somewhere on the detector)"""
+    try:
+        m = int(p['diffraction_order'])
+        g, fl, dx = float(p['grating']), float(p['focal_length']), float(p['pixel_spacing'])
+        ang = math.radians(float(p['diffraction_angle']))
+        c, t = math.cos(ang), math.tan(ang)
+        out = []
+        for w0, n in p['accommodated_spectra']:
+            e = [float(w0)]
+            for _ in range(int(n)):
+                q = 0.5 * m * g * e[-1]
+                rad = c * c - q * q
+                if rad < 0:
+                    return None
+                res = dx * (math.sqrt(rad) - q * t) / (m * fl * g)
+                if not (res > 0 and math.isfinite(res)):
+                    return None
+                e.append(e[-1] + res)
+            if not all(b > a for a, b in zip(e, e[1:])):
+                return None
+            out.append(e)
+        return out
+    except Exception:  # noqa
+        return None
+
+
+def ct_ok(p):
+    if not all(k in p for k in CT_KEYS):
+        return True
+    e = ref_ct_edges(p)
+    if e is None:
+        return False
+    # stay clear of the branch point (sqrt argument -> 0) where one ulp decides
+    m, g = int(p['diffraction_order']), float(p['grating'])
+    c = math.cos(math.radians(float(p['diffraction_angle'])))
+    return all(0.5 * m * g * a[-1] < 0.9 * abs(c) for a in e)
+
+
+def coincidences(prop, cur):
+    """values that coincide numerically with a stored / internal representation of the current value of `prop`
+    (the same value again, radians <-> degrees, nm <-> m, reciprocal)"""
+    old = cur.get(prop)
+    if old is None:
+        return []
+    if prop == 'diffraction_angle':
+        return [old, float(np.deg2rad(old)), float(np.rad2deg(old)), math.radians(old), 180.0 - old if old < 180 else old]
+    if prop in ('grating', 'focal_length', 'pixel_spacing'):
+        return [old, 1.0 / old, old * 1e-9, old * 1e9, float(np.float64(old)), old * (1 + 2 ** -52)]
+    if prop in ('diffraction_order', 'min_bins_per_pixel', 'min_bins_per_window'):
+        return [old, float(old), int(old) + 0.5, np.int64(old)]
+    if prop == 'name':
+        return [old, str(old)]
+    if prop in ('accommodated_spectra', 'wavelength_to_pixel', 'filters'):
+        return [json.loads(json.dumps(old))]          # an equal but distinct object
+    return [old]
+
+
+def gen_value(rng, prop, old=None, cur=None, coincide=0.0):
+    """a fresh valid value for `prop`; with `cur` (the current constructor parameters) the Czerny-Turner geometry stays on
+    a legal branch (checked with the independent reference); with probability `coincide` a value that coincides
+    numerically with a stored representation of the current one"""
+    if cur is not None and coincide and rng.random() < coincide:
+        cands = [v for v in coincidences(prop, cur) if ct_ok(dict(cur, **{prop: v}))
+                 and not (prop in ('diffraction_order', 'min_bins_per_pixel', 'min_bins_per_window') and int(v) < 1)]
+        if cands:
+            v = rng.choice(cands)
+            return v.item() if isinstance(v, np.generic) and prop not in ('diffraction_order',) else v
+    for _ in range(400):
+        v = _gen_value(rng, prop, old)
+        if cur is None or prop not in CT_KEYS or ct_ok(dict(cur, **{prop: v})):
+            return v
+    return v
+
+
+def _gen_value(rng, prop, old=None):
     for _ in range(50):
         if prop == 'wavelength_to_pixel':
             v = gen_w2p(rng)
@@ -138,13 +218,15 @@ def gen_value(rng, prop, old=None):
         elif prop == 'diffraction_order':
             v = rng.randint(1, 3)
         elif prop == 'grating':
-            v = rng.uniform(2e-4, 5e-4)
+            v = rng.choice([rng.uniform(2e-4, 5e-4), 10 ** rng.uniform(-4.7, -3.3), 2e-3])
         elif prop == 'focal_length':
             v = rng.uniform(5e8, 2e9)
         elif prop == 'pixel_spacing':
-            v = rng.uniform(1e4, 3e4)
+            v = rng.choice([rng.uniform(1e4, 3e4), rng.uniform(1e4, 3e4), 5e3, rng.uniform(3e3, 8e3)])
         elif prop == 'diffraction_angle':
-            v = rng.choice([10.0, rng.uniform(5, 30)])
+            # the whole legal range: acute, near-normal, obtuse (tan < 0: pixel width grows with wavelength), beyond 180
+            v = rng.choice([10.0, rng.uniform(5, 30), rng.uniform(30, 88), rng.uniform(92, 150), rng.uniform(150, 178),
+                            100.0, rng.uniform(182, 268)])
         elif prop == 'accommodated_spectra':
             v = [[rng.choice([rng.uniform(300, 700), float(rng.randint(300, 700))]), rng.randint(1, 16)]
                  for _ in range(rng.randint(1, 3))]
@@ -501,6 +583,12 @@ def pl_integral(centres, samples, a, b):
     return F(b) - F(a)
 
 
+def filter_geometry(spec):
+    if spec[0] == 'trap':
+        return spec[1] - 0.5 * spec[2], spec[1] + 0.5 * spec[2]
+    return min(spec[1]), max(spec[1])
+
+
 def monitor_settings(ctx, rig):
     """range covers pixels / filters; bin width bound -- evaluated on the implementation's own outputs"""
     inst = rig.inst
@@ -510,7 +598,21 @@ def monitor_settings(ctx, rig):
         return
     mn, mx, bins = (v for _, v in st)
     if hasattr(inst, 'wavelength_to_pixel'):
-        arrs = [np.asarray(a, dtype=float) for a in inst.wavelength_to_pixel]
+        # the pixel layout the oracle uses is computed from the parameters the harness assigned, never read back from the
+        # instrument: the explicit arrays for a Spectrometer, the independent recurrence for a Czerny-Turner one
+        if 'wavelength_to_pixel' in rig.params:
+            spec_arrays = rig.params['wavelength_to_pixel']
+        else:
+            spec_arrays = ref_ct_edges(rig.params)
+            if spec_arrays is None:
+                ctx.count('illegal-ct-geometry-skipped')
+                return
+            got = [[float(x) for x in a] for a in inst.wavelength_to_pixel]
+            if not (len(got) == len(spec_arrays) and all(len(a) == len(b) and all(close(x, y, 1e-9) for x, y in zip(a, b)) for a, b in zip(got, spec_arrays))):
+                ctx.broke('correspondence', 'Czerny-Turner pixel edges vs. independent Python recurrence',
+                          dict(params=rig.params, implementation=str(got)[:300], reference=str(spec_arrays)[:300]))
+            ctx.count('ct-geometry:' + ('obtuse' if 90 < rig.params['diffraction_angle'] % 360 < 270 else 'acute'))
+        arrs = [np.asarray(a, dtype=float) for a in spec_arrays]
         if any(np.any(np.diff(a) <= 0) or not np.all(np.isfinite(a)) for a in arrs):
             ctx.count('nonmonotone-layout-skipped')
             return
@@ -518,18 +620,19 @@ def monitor_settings(ctx, rig):
             if a.min() < mn or a.max() > mx:
                 ctx.fail('C16:%s:range-does-not-cover-pixels' % rig.cname,
                          'spectral range (%r, %r) does not contain pixel edges %r..%r' % (mn, mx, a.min(), a.max()), replay)
-        narrow = min(float(np.diff(a).min()) for a in arrs) / inst.min_bins_per_pixel
+        narrow = min(float(np.diff(a).min()) for a in arrs) / int(rig.params['min_bins_per_pixel'])
         if bins <= 0 or (mx - mn) / bins > narrow * (1 + 1e-12):
             ctx.fail('C16:%s:bin-wider-than-narrowest-pixel' % rig.cname,
                      'bins=%r: bin width %r exceeds narrowest pixel / min_bins_per_pixel = %r' % (bins, (mx - mn) / max(bins, 1), narrow), replay)
         elif (mx - mn) / bins > narrow:
             ctx.count('float-gap:bin-width-within-1e-12')
     if hasattr(inst, 'filters') and len(inst.filters):
-        for f in inst.filters:
-            if f.min_wavelength < mn or f.max_wavelength > mx:
+        geo = [filter_geometry(sp) for sp in rig.params['filters']]      # from the specs, not from the objects
+        for lo, hi in geo:
+            if lo < mn or hi > mx:
                 ctx.fail('C16:%s:range-does-not-cover-filters' % rig.cname,
-                         'range (%r, %r) does not contain filter (%r, %r)' % (mn, mx, f.min_wavelength, f.max_wavelength), replay)
-        narrow = min(f.window for f in inst.filters) / inst.min_bins_per_window
+                         'range (%r, %r) does not contain filter (%r, %r)' % (mn, mx, lo, hi), replay)
+        narrow = min(hi - lo for lo, hi in geo) / int(rig.params['min_bins_per_window'])
         if bins <= 0 or (mx - mn) / bins > narrow * (1 + 1e-12):
             ctx.fail('C16:%s:bin-wider-than-window-over-min-bins' % rig.cname,
                      'bins=%r: bin width %r exceeds narrowest window / min_bins_per_window = %r' % (bins, (mx - mn) / max(bins, 1), narrow), replay)
@@ -632,14 +735,47 @@ def calibrate_cases(ctx, stream, n):
         w2p = gen_w2p(rng)
         lo = min(a[0] for a in w2p)
         hi = max(a[-1] for a in w2p)
-        style = rng.random()
-        if style < 0.25:       # source bins aligned with dyadic pixel edges
+        style = rng.random() * 0.6 if it % 2 == 0 else 0.6 + rng.random() * 0.4
+        rel, ct_params = 1e-9, None
+        if style >= 0.6:
+            # slowly varying layouts (round 5): nearly uniform / chirped below numpy's default atol of 1e-8 nm per pixel,
+            # exactly uniform, and the high-resolution Czerny-Turner geometry; the source has structure on the pixel scale
+            npix = rng.randint(3, 300)
+            start = rng.uniform(300, 800)
+            if style < 0.75:
+                w = 10 ** rng.uniform(-3, -1)
+                cq = rng.choice([-1, 1]) * 10 ** rng.uniform(-10, -8.4)
+                while abs(cq) * 2 * npix >= 0.5 * w:
+                    cq /= 10
+                w2p = [[start + w * i + cq * i * i for i in range(npix + 1)]]
+                kind = 'chirped'
+            elif style < 0.85:
+                w2p = [[float(x) for x in np.linspace(start, start + rng.uniform(0.05, 20), npix + 1)]]
+                kind = 'uniform'
+            else:
+                for _ in range(200):
+                    ct_params = dict(diffraction_order=rng.randint(1, 2), grating=rng.choice([2e-3, rng.uniform(5e-4, 2e-3)]),
+                                     focal_length=1e9, pixel_spacing=rng.choice([5e3, rng.uniform(2e3, 2e4)]),
+                                     diffraction_angle=rng.choice([10.0, rng.uniform(5, 40), rng.uniform(100, 170)]),
+                                     accommodated_spectra=[[rng.uniform(300, 700), npix]], min_bins_per_pixel=1, name='')
+                    if ct_ok(ct_params):
+                        break
+                w2p = ref_ct_edges(ct_params) or [[start + 0.002 * i for i in range(npix + 1)]]
+                kind = 'czerny-turner'
+                if it % 4 == 1:
+                    rel = 1e-6          # edges of the real instrument differ from the reference by rounding
+                else:
+                    ct_params = None
+            lo, hi = w2p[0][0], w2p[0][-1]
+            smin, smax = lo - rng.choice([0.0, (hi - lo) * 0.1]), hi + rng.choice([0.0, (hi - lo) * 0.1])
+            bins = max(2, int(npix * rng.uniform(0.7, 3.0)))
+        elif style < 0.15:       # source bins aligned with dyadic pixel edges
             w2p = [list(np.cumsum([float(math.floor(a[0]))] + [rng.randint(1, 8) / 4.0 for _ in a[1:]])) for a in w2p]
             w2p = [[float(x) for x in a] for a in w2p]
             lo, hi = min(a[0] for a in w2p), max(a[-1] for a in w2p)
             smin, smax = math.floor(lo) - rng.randint(0, 2), math.ceil(hi) + rng.randint(0, 2)
             bins = int((smax - smin) * rng.choice([1, 2, 4, 8]))
-        elif style < 0.5:      # source coarser than the pixels
+        elif style < 0.3:      # source coarser than the pixels
             smin, smax = lo - rng.uniform(0, 5), hi + rng.uniform(0, 5)
             bins = rng.randint(1, 4)
         else:
@@ -647,9 +783,19 @@ def calibrate_cases(ctx, stream, n):
             bins = rng.randint(1, 400)
         bins = max(bins, 1)
         sp = Spectrum(smin, smax, bins)
-        sp.samples[:] = [rng.choice([0.0, 1.0, rng.uniform(0, 10), 10 ** rng.uniform(-3, 3)]) for _ in range(bins)]
-        inst = Spectrometer(w2p, rng.randint(1, 5))
-        desc = dict(kind='calibrate', w2p=w2p, spectrum=dict(min=smin, max=smax, bins=bins, samples=[float(x) for x in sp.samples]))
+        if style >= 0.6:
+            sp.samples[:] = [1.0 + 10.0 * rng.random() for _ in range(bins)]
+        else:
+            sp.samples[:] = [rng.choice([0.0, 1.0, rng.uniform(0, 10), 10 ** rng.uniform(-3, 3)]) for _ in range(bins)]
+        cls_name = 'Spectrometer'
+        if ct_params is not None:
+            from cherab.tools.spectroscopy import CzernyTurnerSpectrometer
+            inst = CzernyTurnerSpectrometer(**{k: (tuple(tuple(a) for a in v) if k == 'accommodated_spectra' else v) for k, v in ct_params.items()})
+            cls_name = 'CzernyTurnerSpectrometer'
+        else:
+            inst = Spectrometer(w2p, rng.randint(1, 5))
+        desc = dict(kind='calibrate', w2p=w2p, ct_params=ct_params, rel=rel,
+                    spectrum=dict(min=smin, max=smax, bins=bins, samples=[float(x) for x in sp.samples]))
         try:
             out = inst.calibrate(sp)
         except Exception as e:  # noqa
@@ -770,7 +916,10 @@ def machine_histories(ctx, stream, n):
     opname = dict(diffraction_order='setOrder', grating='setGrating', focal_length='setFocal', pixel_spacing='setSpacing',
                   min_bins_per_pixel='setMbpp')
     for it in range(n):
-        ps = {k: gen_value(rng, k) for k in setters}
+        for _ in range(2000):
+            ps = {k: _gen_value(rng, k) for k in setters}
+            if ct_ok(ps):
+                break
         inst = CzernyTurnerSpectrometer(ps['diffraction_order'], ps['grating'], ps['focal_length'], ps['pixel_spacing'],
                                         ps['diffraction_angle'], tuple(tuple(a) for a in ps['accommodated_spectra']),
                                         ps['min_bins_per_pixel'], ps['name'])
@@ -788,7 +937,7 @@ def machine_histories(ctx, stream, n):
             if k < 0.45:
                 prop = rng.choice(setters)
                 bad = rng.random() < 0.2 and prop in BAD
-                val = rng.choice(BAD[prop]) if bad else gen_value(rng, prop, ps[prop])
+                val = rng.choice(BAD[prop]) if bad else gen_value(rng, prop, ps[prop], ps, coincide=0.25)
                 if bad and isinstance(val, str):
                     continue
                 try:
@@ -1085,7 +1234,7 @@ def alias_histories(ctx, vals, tab, n):
                     other = None
                     if others and rng.random() < 0.5:
                         op = rng.choice(others)
-                        other = [op, gen_value(rng, op, params.get(op))]
+                        other = [op, gen_value(rng, op, params.get(op), params)]
                     alias_case(ctx, vals, tab, params, prop, label, via, other)
 
 
@@ -1104,7 +1253,7 @@ def deps_check(ctx, stream, vals, tab, base):
     for prop, mid in tab['setters']:
         for rep in range(3):
             p2 = dict(base)
-            p2[prop] = gen_value(ctx.rng, prop, base[prop])
+            p2[prop] = gen_value(ctx.rng, prop, base[prop], base)
             i0 = cls(**{k: vals.make(k, v) for k, v in base.items()})
             i1 = cls(**{k: vals.make(k, v) for k, v in p2.items()})
             for name, attr in ret_attr.items():
@@ -1132,9 +1281,12 @@ def deps_check(ctx, stream, vals, tab, base):
 
 # ------------------------------------------------------------------------------------------------ drivers of histories
 def base_params(rng, rig):
-    ps = {}
-    for a in rig.ctor_args:
-        ps[a] = gen_value(rng, a)
+    for _ in range(2000):
+        ps = {}
+        for a in rig.ctor_args:
+            ps[a] = _gen_value(rng, a)
+        if ct_ok(ps):
+            return ps
     return ps
 
 
@@ -1149,9 +1301,21 @@ def exercise(ctx, rig, ops, vstream, sample=False):
     nontrivial = False
     for op in ops:
         if op[0] == 'set':
-            st = rig.do_set(op[1], gen_value(rng, op[1], rig.params.get(op[1])))
+            st = rig.do_set(op[1], gen_value(rng, op[1], rig.params.get(op[1]), rig.params, coincide=0.2))
             if st != 'ok':
                 ctx.fail('C16:%s:setter-rejects-valid-value:%s' % (rig.cname, op[1]), 'setter raised %s' % st, dict(kind='history', cls=rig.cname, history=list(rig.log)))
+            nontrivial = nontrivial or filled
+        elif op[0] == 'coin':
+            cands = [v for v in coincidences(op[1], rig.params) if ct_ok(dict(rig.params, **{op[1]: v}))
+                     and not (op[1] in ('diffraction_order', 'min_bins_per_pixel', 'min_bins_per_window') and int(v) < 1)]
+            if not cands:
+                continue
+            v = cands[op[2] % len(cands)]
+            v = v.item() if isinstance(v, np.generic) else v
+            st = rig.do_set(op[1], v)
+            ctx.count('op:set-coinciding-value')
+            if st != 'ok':
+                ctx.fail('C16:%s:setter-rejects-valid-value:%s' % (rig.cname, op[1]), 'setter raised %s for %r' % (st, v), dict(kind='history', cls=rig.cname, history=list(rig.log)))
             nontrivial = nontrivial or filled
         elif op[0] == 'get':
             rig.do_get(op[1])
@@ -1248,6 +1412,11 @@ def run(ctx):
         for g, _ in tab['getters']:
             for p in setters:
                 exercise(ctx, Rig(ctx, tab, stream, vals), [('get', g), ('set', p), ('get', g)], stream)
+        # directed: a new value that coincides numerically with a stored representation of the old one
+        for p in setters:
+            for idx in range(6):
+                exercise(ctx, Rig(ctx, tab, stream, vals), [('obs',), ('coin', p, idx), ('obs',)], stream)
+                ctx.count('coincidence-history:' + cname)
         # random histories with invalid assignments sprinkled in
         for it in range(ctx.n(40, 2000)):
             ops = []
